@@ -12,6 +12,7 @@ GEN = os.path.join(HERE, '..', 'coq', 'Gen')
 
 MODULES = {
     'GenLex': 'translator.gen_lex',
+    'GenProps': 'translator.gen_props',
 }
 
 
